@@ -241,6 +241,14 @@ void async_queue_clear(async_queue_t* queue) {
     queue->head = 0;
     queue->tail = 0;
     queue->count = 0;
+    
+    /* The queue is no longer full: release a writer blocked in async_queue_enqueue(),
+     * exactly as a dequeue does (without this it sleeps until some later dequeue,
+     * which never comes while the queue stays empty). */
+    if (queue->flags & ASYNC_QUEUE_BLOCK_WRITER) {
+        platform_event_set(&queue->not_full);
+    }
+    
     platform_mutex_unlock(&queue->mutex);
 }
 
